@@ -44,17 +44,17 @@ class C03(Check):
     ]
 
     def strategy(self, tier: str):
-        def for_kind(kind: str):
-            reg = stdreg.std_registry(kind)
+        def for_kind(kind: str, plain: bool = False):
+            reg = stdreg.std_registry('sync' if plain else kind)
             # aim most calls at the failing methods
             gen = docs.document(reg, kinds=['single'] * 5 + ['batch'] * 5 + ['mangled', 'raw', 'value'],
                                 flavours=['valid'] * 10 + ['unknown-method'] * 2 + ['deviant', 'deviant', 'non-object'])
             return st.builds(
-                lambda text, beh, mbs, codec: {'dispatcher': kind, 'max_batch_size': batch_limit(text, mbs), 'behaviours': beh, 'text': text, 'codec': codec,
+                lambda text, beh, mbs, codec: {'dispatcher': kind, 'plain': plain, 'max_batch_size': batch_limit(text, mbs), 'behaviours': beh, 'text': text, 'codec': codec,
                                            'logging': 'debug' if (len(beh) + (mbs is None)) % 3 == 0 else 'off'},
                 gen, stdreg.behaviours(True), st.sampled_from(BATCH_LIMITS), st.sampled_from(CODEC_CHOICES),
             )
-        return st.one_of(for_kind('sync'), for_kind('async'))
+        return st.one_of(for_kind('sync'), for_kind('async'), for_kind('async', True))
 
     def corpus(self):
         t = lambda doc: {'doc': doc, 'ascii': True, 'indent': 0, 'pad': '', 'huge': None, 'mangle': None}  # noqa: E731
